@@ -14,7 +14,7 @@ CHECKS = {
              "of delivered datagrams (each any segment of the chain: loss, duplication, re-ordering). Success => requested "
              "bytes are the spa's and no foreign byte (skolem index); failure => block object untouched; <= retry count "
              "requests with fresh sequence numbers; fault-free twin succeeds for every (start,length); two transfers in a row on "
-             "one threaded structure, the first dying by time-out after a prefix.",
+             "one threaded structure, the first dying by time-out after a prefix; two structures transferring at once.",
         note="Bounded: <=2 segments/2 deliveries per attempt/2 attempts (quick), <=3/3/2 (thorough); fault-free twin for "
              "length <=200 (quick) / <=390 (thorough). Timeout scaled to 3 polls (config data, not code).",
         ref="5/C01"),
@@ -35,7 +35,8 @@ CHECKS = {
              "symbolic old block, a symbolic patch (offset, 1..4 bytes) and one shipped accessor per shape at a symbolic "
              "position; the oracle (notify iff decoded value changed, once per distinct observer, old/new arguments, "
              "observers see the new block) uses an independent reference decoder. Three updates in a row with a unit "
-             "switch between two updates of a temperature. All watch/unwatch scripts of <=4 ops with updates inside.",
+             "switch between two updates of a temperature or a repeated patch; two refreshes through the real transfer code of "
+             "both classes; an observer registered after a first update. All watch/unwatch scripts of <=4 ops with updates inside.",
         note="Bounded: patch <= 4 bytes, enums <= 9 labels (quick) / all (thorough), two observers; floats compared via "
              "the ratio abstraction justified by C14's monotone lemma.",
         ref="5/C03"),
@@ -46,7 +47,8 @@ CHECKS = {
              "identifiers and payload: the regular expression the code passes to re.search is turned into an exact "
              "term-level model of CPython's leftmost/greedy/lazy matching (sx/rx.py), so a payload that shifts the split "
              "is found by the solver and replayed on the real re (also when the pattern is compiled at import time). Reply "
-             "addressing on symbolic identifiers; names through the configured encoding (latin-1 / UTF-8 model).",
+             "addressing on symbolic identifiers, also for one handler fed by two peers and for two handler instances in one "
+             "process; names through the configured encoding (latin-1 / UTF-8 model).",
         note="Bounded: framing payload <= 40 (quick) / <= 48 (thorough) bytes, segment payload lengths sampled in quick and "
              "0..255 in thorough, <=2/3 reminder records, names <= 3 bytes; FILES is an exhaustive concrete loop over the "
              "895 shipped combinations. Known findings: SETWC and WCREQ are claimed by no standard handler.",
@@ -56,7 +58,8 @@ CHECKS = {
              "structure patching, driven through the real first-match dispatch (threaded) / async_handle+async_handled "
              "(async): symbolic block, symbolic change positions and values, an arbitrary pending-change list left in "
              "the handler before the first message, refreshes interleaved. The final block must equal the reference "
-             "fold of the updates (array equality by skolem index); exactly one STATQ per STATP, protocol-range sequence.",
+             "fold of the updates (array equality by skolem index); exactly one STATQ per STATP, protocol-range sequence; "
+             "bursts of updates through the real consume() loop.",
         note="Bounded: <=2 (quick) / <=3 (thorough) messages of 0..3 changes, refresh <=3 bytes, pending list <=2.",
         ref="5/C05"),
     "C06": dict(
@@ -66,7 +69,8 @@ CHECKS = {
              "count, each attempt freshly built, the handler is returned iff a reply was delivered for it, completion "
              "within retry x (timeout+pause+poll), one request in flight, FIFO service, all callers complete; a holder "
              "ending abnormally; the real ping loop and the five connection gates with a symbolic real ping age; the "
-             "library's own call sites with lost replies or a busy connection and symbolic counters.",
+             "library's own call sites with lost replies or a busy connection and symbolic counters; the real refresh loop; two "
+             "connections in one process; a pause of zero between retries.",
         note="Bounded: retry <= 2/3, <= 2/3 callers, timeouts scaled to 3 polls; loop stalls not modelled as unbounded "
              "delays.",
         ref="5/C06"),
@@ -76,7 +80,7 @@ CHECKS = {
              "pre-state with a symbolic head datagram - a capable consumer takes the head exactly once and clears the mark, "
              "an incapable one changes nothing; the unhandled consumer's two segments against the four interference "
              "classes; framed packets with symbolic identifiers, foreign sender or malformed inner framing (also right "
-             "after a valid packet) have no effect; an application callback that suspends; a 6-segment run of the real unhandled consumer against an arbitrary "
+             "after a valid packet) have no effect; an application callback that suspends; byte-identical datagrams; two connections; a 6-segment run of the real unhandled consumer against an arbitrary "
              "environment bounds the time a datagram spends at the head.",
         note="Bounded datagram lengths; whole-system statement follows from the atomicity of segments between suspending "
              "awaits (assumption).",
@@ -88,7 +92,7 @@ CHECKS = {
              "a connected spa), ready/teardown bracket conditions and status text at every delivery; real async_reset "
              "(three entry points) from every state; locate and connect brackets around phase doubles that return, raise "
              "or emit any allowed sub-event prefix or are cancelled; reset issued from the spa's own task; pairs of concurrent "
-             "runtime events with a suspending client handler.",
+             "runtime events with a suspending client handler; status texts pinned in the check.",
         note="Control-state exploration by the engine's exhaustive choice mechanism (data is symbolic only for radio "
              "values); inductive for sequential histories; concurrency covered for event pairs (thorough: also from the error "
              "states). "
@@ -99,7 +103,8 @@ CHECKS = {
              "then, per representative of every facade-relevant table signature, the block is replaced by a fully symbolic "
              "1024-byte array and every read-only member of the facade and its devices (65-130 members) is evaluated, one "
              "member per exploration; enum values outside the label list must read 'Unknown'; watercare with a symbolic "
-             "mode byte or None; reminders with symbolic records; the error sensor with a sliding window of symbolic flags.",
+             "mode byte or None (also through the threaded client's reply callback); reminders with symbolic records; the error "
+             "sensor with a sliding window of symbolic flags.",
         note="Per-member exploration (members do not multiply); error flags 2 at a time; construction with symbolic "
              "outputs is C12's part. Float formatting is an opaque stub. Known findings: 18 combinations (inXM log 2, "
              "MrSteam, MAS-IBC-32K) cannot build a facade.",
@@ -110,7 +115,8 @@ CHECKS = {
              "label-list class, two outputs of the same class; thorough adds class pairs and triples), for one "
              "representative of every inventory-relevant table signature; three outputs of one class over the pump labels. "
              "Oracle: independent set-based rule over the tables' own key lists, in table order; pump demand/mode lists, "
-             "classes, sensors, distinct keys/unique ids, lookup by key, a second facade, re-scan after re-wiring.",
+             "classes, sensors, distinct keys/unique ids, lookup by key, a second facade, re-scan after re-wiring, a structure "
+             "rebuilt with another pack's tables; device table pinned in the check.",
         note="Bounded in the number of simultaneously symbolic outputs (2 quick / 3 thorough); other bytes zero. "
              "PYTHONHASHSEED fixed by ./run. Known findings: three table families cannot build a facade at all.",
         ref="5/C12"),
@@ -121,7 +127,8 @@ CHECKS = {
              "STATP that the real handler installs. Symbolic: the current state of the items the command touches, the "
              "argument, both counters. Exactly one well-formed command with pack type, versions and command-range "
              "sequence, the item reads the requested value after the echo, no datagram when already in the requested state; "
-             "three-command sequences on pump demands sharing a word; watercare from any prior belief of the client.",
+             "three-command sequences on pump demands sharing a word; a unit command followed by a temperature command; "
+             "watercare from any prior belief of the client.",
         note="One command per path; wiring from the 6 configurations of the 34 shipped snapshots; three concrete "
              "temperature arguments per unit (all decimals are C14's); reference spa semantics are an assumption.",
         ref="5/C13"),
@@ -139,7 +146,7 @@ CHECKS = {
              "pump or blower is on); real config_sleep, asyncio.wait and asyncio.sleep on a virtual loop whose clock is a "
              "z3 Real: start offsets, delays and switch instants are free reals and every timer ordering is explored - "
              "each sleeper wakes exactly at min(deadline, first switch inside its sleep), also when it sleeps again at once "
-             "across two switches.",
+             "across two switches and for a delay of zero; the selection also through real update notifications, one device at a time.",
         note="Bounded: <=2 sleepers/1 switch and 2 looping sleepers/2 switches (quick), <=3/2 (thorough); clock readings are mathematical reals; distinct "
              "events at distinct instants.",
         ref="5/C17"),
@@ -150,7 +157,8 @@ CHECKS = {
              "items whose declaration differs from the pinned record are compared at their concrete positions, so any "
              "layout change yields a concrete block on which old and new decode differently. Plus addressability of every "
              "item, key lists, module attributes, file naming and the FILES naming round trip; the naming a spa reports is "
-             "mapped to the declaring modules by both clients (differing versions; two platforms with equal numbers).",
+             "mapped to the declaring modules by both clients (differing versions; two platforms with equal numbers) and the "
+             "connected spa exposes every published item.",
         note="Pinned layout generated by ast from commit 236b7b1; new modules allowed. Side conditions on module "
              "attributes/keys/naming are finite concrete comparisons. Known findings: PurgeDelayTimer, WaterDetected.",
         ref="5/C18"),
@@ -160,7 +168,8 @@ CHECKS = {
              "(duplicates, both orders), symbolic name bytes (any latin-1 byte incl. '|'), identifier / address filters. "
              "Each answering spa listed once with identifier, name and address intact, only the requested identifier, "
              "upper and lower bounds on the return time for every case, endpoint closed once, no LOC task or broadcast "
-             "afterwards, also with event handlers that suspend; the threaded locator's de-duplication step.",
+             "afterwards, also with event handlers that suspend; bursts of 17-40 spas; a second locator in the same process; a "
+             "non-ASCII identifier; the threaded locator's de-duplication step and found flag.",
         note="Bounded: <=2/3 replies, 4 arrival slots, 2 spas, names <=2 bytes; discovery timeouts scaled to 6 polls.",
         ref="5/C15"),
     "C16": dict(
@@ -180,9 +189,10 @@ CHECKS["C19"] = dict(
          "itself executed on the symbolic text, so cross-talk between a name and any pattern is found by the solver. One "
          "data element over every byte value, whole blocks concretely and through a real log file; two traffic logs in a row "
          "with non-uniform segment sizes on a block holding every quote/backslash pair and bracketed runs; every shipped "
-         "snapshot file is parsed, loaded into the real simulator (fresh, and one instance for all) and served back unchanged.",
+         "snapshot file is parsed, loaded into the real simulator (fresh, and one instance for all) and served back unchanged "
+         "(full and partial ranges); several snapshots in one log; a path parsed twice; a second spa on one shell.",
     note="Bounded: names <= 3 (quick) / 4 (thorough) characters; version digits concrete; traffic-log and shipped-file "
-         "clauses are concrete runs over choices of segmentation. Three defects found here are fixed in /repo.",
+         "clauses are concrete runs over choices of segmentation. Four defects found here are fixed in /repo.",
     ref="5/C19")
 
 CHECKS["C20"] = dict(
@@ -193,7 +203,8 @@ CHECKS["C20"] = dict(
          "request handler over a stepped engine loop with free timeout, retry count, time steps and answer instant "
          "(exactly N retransmissions then removal / removal at the answer and silence afterwards), also behind a send "
          "backlog; a cross-thread add between the two locked sections of the cleanup; the blocking client's real handshake "
-         "against the real simulator under symbolic loss bits, a lost status segment and 0..3 lost requests per step.",
+         "against the real simulator under symbolic loss bits, a lost status segment, 0..3 lost requests per step and the "
+         "simulator's own drops; removal keeps registration order.",
     note="Engine iterations stepped in _thread_func order, no real threads; socket double; handshake on the concrete "
          "default snapshot with 5 (quick) / 8 (thorough) loss bits. One defect found here is fixed in /repo.",
     ref="5/C20")
